@@ -49,7 +49,7 @@ def split_targs(s):
 class FuncInfo:
     def __init__(self, cname, ret='?', base=None, static=False, self_const=True, params=None, ref=False, as_base=False, lead_base=(), template=None):
         self.cname = cname
-        self.template = template   # call rendering with placeholders %aN (argument), %pN (address of argument), %bN (iterator base of argument)
+        self.template = template   # call rendering with placeholders %aN (argument), %pN (address of argument), %bN (iterator base of argument), %TN (type name of argument)
         self.ret = ret          # internal type of the value (for Ref returns: the referred type)
         self.base = base        # for It returns: base expr template; '%self' is replaced by the object expr
         self.static = static
@@ -770,6 +770,10 @@ class Ctx:
                             out = out.replace('%p' + str(i_), self.em_addr(a[i_]))
                         if '%b' + str(i_) in out:
                             out = out.replace('%b' + str(i_), self.need_base(a[i_]))
+                        if '%T' + str(i_) in out:
+                            # the C type name of the argument (overload selection by argument type, e.g. a template<T> helper)
+                            tn_ = re.sub(r'\W', '_', str(self.typeof(a[i_]))).strip('_')
+                            out = out.replace('%T' + str(i_), tn_)
                     return out.replace('%self', self.selfname)
                 pre_args = []
                 if targs and getattr(fi, 'targs_as_args', False):
